@@ -199,23 +199,23 @@ func (e *env) serveBody(h http.HandlerFunc, method, path string, body any, peer 
 func (e *env) revokeToken(serialAsSent, reason string) int {
 	// the token's subject is the serial as the client knows it (what `step ca revoke` sends)
 	tok := must(e.ca.Token(fixture.TokenOpts{Subject: serialAsSent, Audience: fixture.Audience("/1.0/revoke"), NoSANs: true}))
-	return e.serve(api.Revoke, "POST", "/1.0/revoke", map[string]any{"serial": serialAsSent, "ott": tok, "passive": true, "reasonCode": 1, "reason": reason}, nil, "")
+	return e.serve(api.Revoke, "POST", "/1.0/revoke", map[string]any{"serial": serialAsSent, "ott": tok, "passive": true, "reasonCode": reasonCodeOf(reason), "reason": reason}, nil, "")
 }
 
 func (e *env) revokeMTLS(c *x509Cert, serialAsSent, reason string) int {
-	return e.serve(api.Revoke, "POST", "/1.0/revoke", map[string]any{"serial": serialAsSent, "passive": true, "reasonCode": 1, "reason": reason}, c.crt, "")
+	return e.serve(api.Revoke, "POST", "/1.0/revoke", map[string]any{"serial": serialAsSent, "passive": true, "reasonCode": reasonCodeOf(reason), "reason": reason}, c.crt, "")
 }
 
 // the call acme/api/revoke.go makes after it has authenticated the ACME request
 func (e *env) revokeACME(c *x509Cert, reason string) int {
 	ctx := provisioner.NewContextWithMethod(authority.NewContext(context.Background(), e.ca.Auth), provisioner.RevokeMethod)
-	err := e.ca.Auth.Revoke(ctx, &authority.RevokeOptions{Serial: c.crt.SerialNumber.String(), Crt: c.crt, ACME: true, ReasonCode: 1, Reason: reason})
+	err := e.ca.Auth.Revoke(ctx, &authority.RevokeOptions{Serial: c.crt.SerialNumber.String(), Crt: c.crt, ACME: true, ReasonCode: reasonCodeOf(reason), Reason: reason})
 	return statusOf(err, 200)
 }
 
 func (e *env) revokeSSHJWK(serialAsSent, reason string) int {
 	tok := must(e.ca.Token(fixture.TokenOpts{Subject: serialAsSent, Audience: fixture.Audience("/1.0/ssh/revoke"), NoSANs: true}))
-	return e.serve(api.SSHRevoke, "POST", "/1.0/ssh/revoke", map[string]any{"serial": serialAsSent, "ott": tok, "passive": true, "reasonCode": 1, "reason": reason}, nil, "")
+	return e.serve(api.SSHRevoke, "POST", "/1.0/ssh/revoke", map[string]any{"serial": serialAsSent, "ott": tok, "passive": true, "reasonCode": reasonCodeOf(reason), "reason": reason}, nil, "")
 }
 
 // sshpopToken: a proof-of-possession token for the SSH certificate (header sshpop, signed by
@@ -230,7 +230,7 @@ func (e *env) sshpopToken(c *sshCert, path string) string {
 }
 
 func (e *env) revokeSSHPOP(c *sshCert, serialAsSent, reason string) int {
-	return e.serve(api.SSHRevoke, "POST", "/1.0/ssh/revoke", map[string]any{"serial": serialAsSent, "ott": e.sshpopToken(c, "/1.0/ssh/revoke"), "passive": true, "reasonCode": 1, "reason": reason}, nil, "")
+	return e.serve(api.SSHRevoke, "POST", "/1.0/ssh/revoke", map[string]any{"serial": serialAsSent, "ott": e.sshpopToken(c, "/1.0/ssh/revoke"), "passive": true, "reasonCode": reasonCodeOf(reason), "reason": reason}, nil, "")
 }
 
 // renewTokenFor mints the token `step ca renew --mtls=false` sends: header x5cInsecure = the
@@ -284,6 +284,18 @@ func (e *env) rekeySSHHandler(c *sshCert) int {
 	key := must(ecdsa.GenerateKey(elliptic.P256(), rand.Reader))
 	pub := must(ssh.NewPublicKey(&key.PublicKey))
 	return e.serve(api.SSHRekey, "POST", "/1.0/ssh/rekey", map[string]any{"ott": e.sshpopToken(c, "/1.0/ssh/rekey"), "publicKey": pub.Marshal()}, nil, "")
+}
+
+// reasonCodeOf: the reason code sent with a revocation varies with the request ("t<n>" is request n of a history): keyCompromise,
+// certificateHold, removeFromCRL, unspecified, superseded. Whatever the code, an acknowledged revocation is a revocation: the record
+// blocks renewals (a linked CA service answers HOLD for certificateHold, which is not ACTIVE either).
+func reasonCodeOf(reason string) int {
+	if strings.HasPrefix(reason, "t") {
+		if n, err := strconv.Atoi(reason[1:]); err == nil {
+			return []int{1, 6, 8, 0, 4}[n%5]
+		}
+	}
+	return 1
 }
 
 func statusOf(err error, ok int) int {
